@@ -176,6 +176,7 @@ def rot_matrix(dim, ks):
 
 
 WPATTERN = [-1]
+XMAG = [-1]
 
 
 def warp_event(darsia, rng, dim, sshape, ks, shift, typed, payload, tid, dshape_mode):
@@ -229,8 +230,8 @@ def warp_event(darsia, rng, dim, sshape, ks, shift, typed, payload, tid, dshape_
         A.set_parameters(translation=t + half - P @ half, scaling=1.0, rotation=angles)
     else:
         # physical coordinates: equal isotropic voxel size h in both systems; voxel centre v+1/2 sits at o + h*S(v+1/2)
-        def physical(h, origin):
-            src = image(sshape, [h] * dim)
+        def physical(h, origin, src_origin=None):
+            src = image(sshape, [h] * dim, origin=src_origin)
             dst = image(dshape, [h] * dim, 0.0, origin=origin)
             # x = o + h * (v + 1/2) @ Mperm  (Cartesian from matrix position), taken from the images' own coordinate systems
             def frame(im):
@@ -252,7 +253,19 @@ def warp_event(darsia, rng, dim, sshape, ks, shift, typed, payload, tid, dshape_
             return src, dst, A_
 
         h = rng.choice([1.0, 0.5, 0.1])
-        src, dst, A = physical(h, [rng.choice([0.0, 3.0, -2.5]) for _ in range(dim)])
+        # (magnitudes in turn: ordinary; both frames a million voxel sizes away from zero (and coinciding when the shapes agree);
+        # sub-nanometre voxels - powers of two keep the positions exact)
+        XMAG[0] += 1
+        if XMAG[0] % 3 == 1:
+            h = rng.choice([1.0, 0.5])
+            far = [1e6 * h * (1 + a_) for a_ in range(dim)]
+            src, dst, A = physical(h, list(far), src_origin=list(far))
+        elif XMAG[0] % 3 == 2:
+            h = rng.choice([1.0, 0.5]) * 2.0 ** -30
+            near = [3 * h for _ in range(dim)]
+            src, dst, A = physical(h, list(near), src_origin=list(near))
+        else:
+            src, dst, A = physical(h, [rng.choice([0.0, 3.0, -2.5]) for _ in range(dim)])
     e = {"tid": tid, "op": "warp", "dim": dim, "typed": typed, "payload": payload, "sshape": list(sshape), "dshape": list(dshape), "trailing": list(trailing),
          "P": P.astype(int).tolist(), "t": [int(x) for x in t], "k": list(ks), "raised": 0, "res": [], "second": "same",
          "data": [int(x) for x in np.asarray(src.img).ravel()], "pattern": pattern}
